@@ -10,6 +10,7 @@ Statements (all paths root-relative):
   ["ifc", path, use]         if exists: ifchange (+use) else redo-ifcreate
   ["ifcreate_raw", path]     redo-ifcreate path unconditionally
   ["always"] ["ext", name] ["failflag", name, code] ["fail", code] ["work", k] ["err", file]
+  ["failflag_direct", name, code]   like failflag, but the failing script first scribbles over its target ($1) itself
   ["out", "stdout"|"file"] ["stamp"] ["stampif", flag]   (redo-stamp only while $RV_CTL/stampflag.<flag> exists)
   ["stampsrc", path]         redo-stamp unless source `path` currently holds its variant 1
   ["usermod"]                while the script runs, "the user" replaces the target file by hand (iff $RV_CTL/usermod.<flag>
@@ -102,6 +103,8 @@ def render_do(dofile, spec):
             L.append("v_ext %s" % shq(st[1]))
         elif k == "failflag":
             L.append("v_failflag %s %d" % (shq(st[1]), st[2]))
+        elif k == "failflag_direct":
+            L.append("v_failflag_direct %s %d" % (shq(st[1]), st[2]))
         elif k == "fail":
             L.append("v_exit %d" % st[1])
         elif k == "work":
